@@ -3,9 +3,12 @@ package props
 import (
 	"encoding/json"
 	"fmt"
+	"os"
 	"strings"
 
+	"github.com/paulsonkoly/calc/parser"
 	"github.com/paulsonkoly/calc/types/bytecode"
+	"github.com/paulsonkoly/calc/types/node"
 	"github.com/paulsonkoly/calc/types/value"
 
 	"verif/core"
@@ -33,7 +36,7 @@ var c15Bounds = []int{1 << 15, 1 << 16}
 const c15DeltaLo, c15DeltaHi = -14, 3
 
 // statements under test: self-contained given the three definitions below.
-var c15Defs = []string{"ga = 5", "fa = (n) -> n + 1", "gs = \"xy\""}
+var c15Defs = []string{"ga = 5", "fa = (n) -> n + 1", "gs = \"xy\"", "gr = [4, 5, 6, 7]"}
 var c15Kinds = []string{
 	"7 + 1",
 	"gb = 5",
@@ -48,16 +51,22 @@ var c15Kinds = []string{
 	"[1, 2, ga]",
 	"[1, 2][1]",
 	"write(5)",
+	"gs[0:1]",
+	"gr[1:ga - 2]",
+	"\"abcd\"[1:3]",
+	"[1, 2, 3][0:2]",
+	"{\nfd = (a) -> a[1:#a]\nfd(gr)\n}",
+	"gr[ga - 3]",
 	"{\nfc = (a, b) -> {\nc = a + b\nfor e <- fromto(0, c) {\nif e > 1 {\nreturn e\n}\n}\n0\n}\nfc(1, 2)\n}",
 }
 
 func (C15) Cases(t core.Tier) int {
 	n := len(c15Bounds) * (c15DeltaHi - c15DeltaLo + 1) * len(c15Kinds) * 2
-	return n + len(c15Large) + c15JumpCases(t)
+	return n + len(c15Large) + c15JumpCases(t) + len(c15JumpTpls) + c15LateCases
 }
 func (C15) Exhaustive(t core.Tier) bool { return t == core.Thorough } // quick samples the jump-distance table
 func (C15) Rule() string {
-	return "Fault = capacity exhaustion: before the statement under test the data segment is filled (with nil entries, as a long session would have filled it with constants) to B+delta for B in {2^15, 2^16}. Enumerated completely in both tiers: B x delta in -14..+3 x 14 statement kinds (literals, global name references, calls, if/while/for nil placeholders, function values, strings, arrays, writes, a function with a loop) x REPL/script flavour = 1008 cases, so every data-segment entry a statement creates lands on both sides of each boundary; plus 10 large-body cases (functions with 2^15-2..2^15+2 locals, bodies of about 2^15 statements) in both tiers; plus jump-distance cases: 14 templates (if taken/skipped, if-else with the long branch taken/skipped on either side, while run 0/1/3 times, function body called/not called, for body, iterator body, wide units) whose statement is made exactly L instructions long for L = limit+d, limit in {2^15-1, 2^16-1}, using locals only and no literal in the repeated unit so that only the back-patched jump distance grows: d in -3..+9 enumerated completely in thorough (364 cases), 9 (limit, d) pairs per template in quick (126 cases), each with a closed-form expected value. Seeded runs add generated sessions with the fill placed at a drawn point and delta in -60..+20. Oracle: either compilation is refused before any instruction of the statement runs (an error or a compile-time panic), or (i) every operand of every newly emitted instruction decodes to an in-range address (DS index in [0,len(DS)), jump target in [0,len(CS)], function entry inside CS, local index below the local count) and (ii) value, output and error class equal those of a twin session with no fill. Non-trivial = the statement's new DS entries or jumps straddle or exceed a boundary. Distinct = (boundary, delta, kind, flavour) or hash of the generated session."
+	return "Fault = capacity exhaustion: before the statement under test the data segment is filled (with nil entries, as a long session would have filled it with constants) to B+delta for B in {2^15, 2^16}. Enumerated completely in both tiers: B x delta in -14..+3 x 20 statement kinds (literals, global name references, calls, if/while/for nil placeholders, function values, strings, arrays, indexing and slicing of globals, literals and parameters, writes, a function with a loop) x REPL/script flavour = 1440 cases, so every data-segment entry a statement creates lands on both sides of each boundary; plus 10 large-body cases (functions with 2^15-2..2^15+2 locals, bodies of about 2^15 statements) in both tiers; plus jump-distance cases: 14 templates (if taken/skipped, if-else with the long branch taken/skipped on either side, while run 0/1/3 times, function body called/not called, for body, iterator body, wide units) whose statement is made exactly L instructions long for L = limit+d, limit in {2^15-1, 2^16-1}, using locals only and no literal in the repeated unit so that only the back-patched jump distance grows: d in -3..+9 enumerated completely in thorough (364 cases), 9 (limit, d) pairs per template in quick (126 cases), each with a closed-form expected value; 14 refusal cases (a script whose middle statement cannot be encoded and begins with write(\"LEAK\"), run through the real node.Loop on a real file: nothing of the refused statement may execute and, if the session survives the refusal, the next statement must print what it prints in a fresh session); 4 late-definition cases (functions, closures, generators, loops and recursion defined and used after the session's code has passed 2^16 instructions, closed-form results). Seeded runs add generated sessions with the fill placed at a drawn point and delta in -60..+20. Oracle: either compilation is refused before any instruction of the statement runs (an error or a compile-time panic), or (i) every operand of every newly emitted instruction decodes to an in-range address (DS index in [0,len(DS)), jump target in [0,len(CS)], function entry inside CS, local index below the local count) and (ii) value, output and error class equal those of a twin session with no fill. Non-trivial = the statement's new DS entries or jumps straddle or exceed a boundary. Distinct = (boundary, delta, kind, flavour) or hash of the generated session."
 }
 func (C15) Assumptions() []string {
 	return []string{
@@ -239,7 +248,21 @@ func (C15) RunCase(i int) core.Result {
 	nd := c15DeltaHi - c15DeltaLo + 1
 	table := len(c15Bounds) * nd * len(c15Kinds) * 2
 	if i >= table+len(c15Large) {
-		return c15JumpCase(i - table - len(c15Large))
+		j := i - table - len(c15Large)
+		// numbering (the same in both tiers): quick jump sample, refusal cases, late-definition
+		// cases, then (thorough only) the full jump table
+		nq := len(c15JumpTpls) * len(c15JumpQuick)
+		switch {
+		case j < nq:
+			return c15JumpCase(j)
+		case j < nq+len(c15JumpTpls):
+			return c15RefusalCase(j - nq)
+		case j < nq+len(c15JumpTpls)+c15LateCases:
+			return c15LateCase(j - nq - len(c15JumpTpls))
+		case j < nq+len(c15JumpTpls)+c15LateCases+len(c15JumpTpls)*2*len(c15JumpDeltas):
+			return c15JumpCase(j - len(c15JumpTpls) - c15LateCases)
+		}
+		return core.Result{Discard: "no such case"}
 	}
 	if i >= table {
 		lc := c15Large[i-table]
@@ -486,5 +509,162 @@ func c15JumpCase(i int) core.Result {
 	default:
 		r.Inc("accepted_and_equal", 1)
 	}
+	return r
+}
+
+// ---- a refused statement must leave nothing behind (through the real read-eval loop)
+
+// c15RefusalCase: a script whose second statement is too large to be encoded (its jump over a
+// body of locals-only units exceeds the operand field) and starts with write("LEAK"), followed by
+// an ordinary statement, runs through node.Loop on a real file. Refusal may end the interpreter (a
+// compile-time panic does) or be reported and survived; either way nothing of the refused
+// statement may execute, and whatever runs afterwards must behave as if it had never been seen.
+func c15RefusalCase(i int) core.Result {
+	var r core.Result
+	t := c15JumpTpls[i]
+	h := &Hist{Flavour: "script"}
+	r.NonTrivial = true
+	r.Key = uint64(core.NewHash().Str("refusal").Str(t.name))
+	r.Sample = h
+	per, pad, base10, ok := c15UnitCost(t)
+	if !ok {
+		r.Discard = "template did not evaluate at small sizes"
+		return r
+	}
+	total := 1<<15 + 40
+	pads := 0
+	for (total-(base10-10*per)-pads*pad)%per != 0 {
+		pads++
+	}
+	n := (total - (base10 - 10*per) - pads*pad) / per
+	big := "{\nwrite(\"LEAK\")\n" + strings.TrimPrefix(c15JumpSrc(t, n, pads), "{\n")
+	h.add("write(\"start;\")")
+	h.add(trunc(big, 120) + " ...")
+	h.add("write(toa(7 + 1))")
+	h.Notes = fmt.Sprintf("refusal case %s: the middle statement is %d instructions long (limit 32767) and begins with write(\"LEAK\")", t.name, total)
+	f, err := os.CreateTemp(shmDir(), "simcalc-c15-*")
+	if err != nil {
+		r.Discard = "tempfile"
+		return r
+	}
+	name := f.Name()
+	f.WriteString("write(\"start;\")\n" + big + "\nwrite(toa(7 + 1))\n")
+	f.Close()
+	defer os.Remove(name)
+	died := ""
+	var steps int64
+	func() {
+		defer func() {
+			if p := recover(); p != nil {
+				died = fmt.Sprint(p)
+			}
+		}()
+		s := sess.New()
+		s.Budget = 5_000_000
+		s.Activate()
+		fr := node.NewFReader(name)
+		defer fr.Close()
+		defer func() { steps = s.Steps }()
+		node.Loop(fr, parser.Type{}, s.VM, false)
+	}()
+	out := sess.TakeOutput()
+	r.Statements += 3
+	r.Instructions += steps
+	r.TraceHash = uint64(core.NewHash().Str(out).Str(died))
+	r.Inc("F9.refused_statement_followed_by_more."+t.name, 1)
+	switch {
+	case strings.Contains(out, "LEAK"):
+		r.Violation = &core.Violation{Clause: "refused-statement-executed", Detail: fmt.Sprintf("the statement cannot be encoded, yet its first instruction ran: output %q, loop ended with %q", trunc(out, 300), died), History: h}
+	case !strings.HasPrefix(out, "start;"):
+		r.Violation = &core.Violation{Clause: "refusal-lost-earlier-output", Detail: fmt.Sprintf("output %q", trunc(out, 300)), History: h}
+	case died != "":
+		r.Inc("refused_at_compile_time", 1) // the interpreter ended at the refusal: nothing ran
+		if strings.Contains(out[len("start;"):], "8") {
+			r.Violation = &core.Violation{Clause: "refusal-order", Detail: fmt.Sprintf("output %q although the loop ended with %q", trunc(out, 300), died), History: h}
+		}
+	case !strings.HasSuffix(out, "8"):
+		r.Violation = &core.Violation{Clause: "statement-after-refusal-differs", Detail: fmt.Sprintf("the session went on after the refusal but the next statement printed %q, want it to end in \"8\"", trunc(out, 300)), History: h}
+	default:
+		r.Inc("refusal_reported_and_survived", 1)
+	}
+	return r
+}
+
+// ---- definitions beyond instruction 2^16
+
+const c15LateCases = 4
+
+// c15LateCase: sessions that are more than 2^16 instructions long before small functions,
+// closures, generators and loops are defined and used: entry points, jump targets and context
+// forks beyond the 16-bit range must work (they are not operands) or be refused.
+func c15LateCase(i int) core.Result {
+	var r core.Result
+	h := &Hist{Flavour: "repl", Notes: "late-definition case: three functions of about 23000 instructions each come first"}
+	r.NonTrivial = true
+	r.Key = uint64(core.NewHash().Str("late").Int(i))
+	r.Sample = h
+	s := sess.New()
+	s.Budget = 50_000_000
+	bigN := 11500
+	var defs []string
+	for k := 0; k < 3; k++ {
+		defs = append(defs, fmt.Sprintf("big%c = () -> {\nx = 0\n%sx\n}", 'a'+k, strings.Repeat(c15Unit, bigN+k)))
+	}
+	type step struct{ src, want string }
+	var steps []step
+	switch i {
+	case 0:
+		steps = []step{{"inc = (n) -> n + 1", "function"}, {"inc(41)", "42"}, {"biga()", flip(bigN)}, {"bigc()", flip(bigN + 2)}, {"inc(inc(1))", "3"}}
+	case 1:
+		steps = []step{{"mk = (k) -> (x) -> x + k", "function"}, {"hh = mk(2)", "function"}, {"hh(3)", "5"}, {"bigb()", flip(bigN + 1)}, {"hh(4)", "6"}}
+	case 2:
+		steps = []step{{"gg = (n) -> {\ni = 0\nwhile i < n {\nyield i\ni = i + 1\n}\n}", "function"},
+			{"us = (n) -> {\ns = 0\nfor e <- gg(n) {\ns = s + e\n}\ns\n}", "function"}, {"us(5)", "10"},
+			{"{\nt = 0\nfor a, b <- gg(3), fromto(5, 9) {\nt = t + a * b\n}\nt\n}", "20"}}
+	default:
+		steps = []step{{"fr = (n) -> if n <= 0 {\n0\n} else {\nn + fr(n - 1)\n}", "function"}, {"fr(10)", "55"},
+			{"{\nw = 0\nk = 0\nwhile k < 4 {\nif k % 2 == 0 {\nw = w + k\n} else {\nw = w - 1\n}\nk = k + 1\n}\nw\n}", "0"}, {"biga() + fr(3)", fmt.Sprint(map[string]int{"0": 0, "-1": -1}[flip(bigN)] + 6)}}
+	}
+	for _, d := range defs {
+		h.add(trunc(d, 60) + " ...")
+		o := s.Submit(d+"\n", true)[0]
+		r.Statements++
+		if o.Kind == sess.KPanic && o.Phase == "compile" {
+			r.Inc("refused_at_compile_time", 1)
+			return r
+		}
+		if o.Kind != sess.KValue {
+			r.Violation = &core.Violation{Clause: "late-definition", Detail: "large function definition: " + o.Brief(), History: h}
+			return r
+		}
+	}
+	if len(s.CS) <= 1<<16 {
+		r.Discard = fmt.Sprintf("session is only %d instructions long", len(s.CS))
+		return r
+	}
+	r.Inc("F9.definitions_beyond_instruction_65536", 1)
+	for _, st := range steps {
+		h.add(st.src)
+		cs0 := len(s.CS)
+		o := s.Submit(st.src+"\n", true)[0]
+		r.Statements++
+		r.Instructions += o.Steps
+		switch {
+		case o.Kind == sess.KPanic && o.Phase == "compile":
+			r.Inc("refused_at_compile_time", 1)
+			return r
+		case decodeCheck(s, cs0) != "":
+			r.Violation = &core.Violation{Clause: "operand-wrapped", Detail: decodeCheck(s, cs0), History: h}
+			return r
+		case o.Kind == sess.KPanic:
+			r.Violation = &core.Violation{Clause: "run-panic", Detail: o.Err, History: h}
+			return r
+		case o.Kind != sess.KValue || o.Val != st.want:
+			r.Violation = &core.Violation{Clause: "late-definition", Detail: fmt.Sprintf("%s (compiled at instruction %d): got %s, want %s", trunc(st.src, 60), cs0, o.Brief(), st.want), History: h}
+			return r
+		}
+	}
+	r.Inc("accepted_and_equal", 1)
+	r.TraceHash = r.Key
 	return r
 }
